@@ -17,28 +17,29 @@ const modPath = "github.com/osteele/liquid"
 
 // World is the loaded program plus everything derived from it once per run.
 type World struct {
-	prog        *ssa.Program
-	pkgs        []*packages.Package
-	fns         map[string]*ssa.Function // short selector -> function
-	allFns      []*ssa.Function
-	typeIDs     map[string]int
-	typeByID    map[int]types.Type
-	cons        map[string]*Contract // short selector -> contract
-	ifaces      map[string]*IfaceContract
-	defines     map[string]*Define
-	lemmas      []*Lemma
-	mods        map[*ssa.Function]map[string]bool // inferred heap write sets
-	repoDir     string
-	specErrs    []string
-	scratchD    *Decls
-	typeInvs    map[string]*Clause
-	globalInvs  map[string]*Clause
-	rvUnder     types.Type
-	initMode    bool // verifying a package initialiser: global invariants are goals, not assumptions
-	immutable   map[string]bool
-	macros      map[string]string
-	filterNames map[*ssa.Function]string
-	fieldHeaps  map[string][]string
+	prog          *ssa.Program
+	pkgs          []*packages.Package
+	fns           map[string]*ssa.Function // short selector -> function
+	allFns        []*ssa.Function
+	typeIDs       map[string]int
+	typeByID      map[int]types.Type
+	cons          map[string]*Contract // short selector -> contract
+	ifaces        map[string]*IfaceContract
+	defines       map[string]*Define
+	lemmas        []*Lemma
+	mods          map[*ssa.Function]map[string]bool // inferred heap write sets
+	repoDir       string
+	specErrs      []string
+	scratchD      *Decls
+	typeInvs      map[string]*Clause
+	globalInvs    map[string]*Clause
+	rvUnder       types.Type
+	computingMods bool
+	initMode      bool // verifying a package initialiser: global invariants are goals, not assumptions
+	immutable     map[string]bool
+	macros        map[string]string
+	filterNames   map[*ssa.Function]string
+	fieldHeaps    map[string][]string
 }
 
 func shortName(s string) string {
